@@ -131,6 +131,12 @@ Fixpoint depth (v : cval) : nat :=
   end.
 Definition depth_list (vs : list cval) : nat := fold_right (fun v d => Nat.max (depth v) d) O vs.
 
+(* concatMaps on a list of maps with enough fuel for their nesting depth
+   (ConcatItems[map[string]any] for any number of items, e.g. the Extra maps of messages) *)
+Definition dmaps (ms : list (list (string * cval))) : nat := depth_list (map CMap ms).
+Definition concat_maps_top (ms : list (list (string * cval))) : res (list (string * cval)) :=
+  concat_maps (S (dmaps ms)) ms.
+
 (* ConcatItems[T] for a statically typed item list of length >= 2.
    T = map[string]any goes to concatMaps; every other T to concatSliceValue. *)
 Definition concat_items (vs : list cval) : res cval :=
